@@ -150,8 +150,13 @@ def rule_r4(prog, res) -> None:
     if err is None or covp is None:
         raise AnalysisError("C03.R4: SampledData.error/covariance vanished")
     res.touch(err)
-    rtxt = unparse([r.value for r in walk_no_nested(err.node) if isinstance(r, ast.Return)][0]).replace(" ", "")
-    if rtxt == "np.sqrt(np.diag(self.covariance))":
+    from ..norm import Rational as _R, _atom as _A, poly as _poly, uf_atom as _uf
+
+    rexpr = [r.value for r in walk_no_nested(err.node) if isinstance(r, ast.Return)][0]
+    rtxt = unparse(rexpr).replace(" ", "")
+    resolver_e = lambda n_: (lambda vals: vals[0] if len(vals) == 1 else None)([v for v in all_def_values(err.node, n_) if v is not None])  # noqa: E731
+    want_err = _R(_uf("sqrt", _R(_uf("diag", _R(_A("self.covariance"))))))
+    if _poly(rexpr, resolver_e).equals(want_err):
         res.ok("C03.R4", res.site(err), "error = sqrt(diag(covariance))")
     else:
         res.violation("C03.R4", err, err.node, f"error is {rtxt}, expected sqrt(diag(covariance))", key_extra="error-formula")
